@@ -126,6 +126,8 @@ type Obligation struct {
 	Output  string
 	ex      *Exec
 	noLemmas bool
+	blk     int
+	factBlk []int
 }
 
 type Exec struct {
@@ -134,6 +136,8 @@ type Exec struct {
 	fname  string
 	c      *Contract
 	facts  []*Term
+	factBlk []int // block (of the function under verification) in which each fact was emitted; -1 = entry/global
+	curBlk int
 	obls   []*Obligation
 	st     *State
 	entry  *State
@@ -172,6 +176,7 @@ type Frame struct {
 }
 
 type retPoint struct {
+	blk  int
 	cond *Term
 	vals []*GVal
 	st   *State
@@ -212,6 +217,7 @@ func (ex *Exec) addFact(t *Term) {
 		return
 	}
 	ex.facts = append(ex.facts, t)
+	ex.factBlk = append(ex.factBlk, ex.curBlk)
 }
 
 func (ex *Exec) oblName(base string) string {
@@ -233,7 +239,7 @@ func (fr *Frame) oblige(kind, label string, props []string, goal *Term, pos toke
 	if ex.c != nil && (kind == "safe" || kind == "term" || strings.HasPrefix(kind, "loop") && strings.HasPrefix(label, "variant") || len(props) == 0) {
 		props = unionProps(props, ex.c.Props)
 	}
-	o := &Obligation{ex: ex, base: base, pos: pos, Name: name, Func: ex.fname, Kind: kind, Props: props, NFacts: len(ex.facts), Facts: ex.facts, Goal: g, Where: ex.p.srcLine(pos)}
+	o := &Obligation{blk: ex.curBlk, factBlk: ex.factBlk, ex: ex, base: base, pos: pos, Name: name, Func: ex.fname, Kind: kind, Props: props, NFacts: len(ex.facts), Facts: ex.facts, Goal: g, Where: ex.p.srcLine(pos)}
 	if g == TTrue {
 		// holds by construction of the terms (e.g. code and spec build the same term)
 		o.Verdict, o.Solver, o.Facts = "unsat", "syntactic", nil
@@ -1006,6 +1012,9 @@ func (fr *Frame) run(args []*GVal, entrySt *State) {
 		}
 		fr.curBlock = b
 		fr.cur = fr.reach[b]
+		if fr.top {
+			ex.curBlk = b.Index
+		}
 		if li != nil {
 			fr.enterLoop(li, preds)
 		}
@@ -1040,7 +1049,7 @@ func (fr *Frame) execBlock(b *ssa.BasicBlock, preds []*ssa.BasicBlock, li *loopI
 			for _, r := range in.Results {
 				vs = append(vs, fr.val(r))
 			}
-			fr.rets = append(fr.rets, retPoint{cond: fr.reach[b], vals: vs, st: ex.st, pos: in.Pos()})
+			fr.rets = append(fr.rets, retPoint{blk: b.Index, cond: fr.reach[b], vals: vs, st: ex.st, pos: in.Pos()})
 		case *ssa.Panic:
 			fr.doPanic(in)
 		default:
